@@ -404,7 +404,7 @@ def run_scenario(ops, opts=None):
                                   detail={"after": label, "from": w.frames[i][0], "to": w.frames[j][0], "err_m": err, "scale": scale}))
             if fresh and (i, j) in before:
                 counts["unchanged_compared"] += 1
-                if not np.array_equal(before[i, j], after[i, j]):
+                if not np.array_equal(before[i, j], after[i, j], equal_nan=True):
                     fails.append(dict(family="registration-changes-conversion", what="registering frames under new names changed a conversion between pre-existing frames",
                                       detail={"after": label, "from": w.frames[i][0], "to": w.frames[j][0],
                                               "before": [float(v) for v in before[i, j]], "now": [float(v) for v in after[i, j]]}))
